@@ -62,19 +62,28 @@ impl Iterator for Scanlines {
     type Item = Scanline;
 
     fn next(&mut self) -> Option<Self::Item> {
-        let y = self.rows.next()?;
+        loop {
+            let y = self.rows.next()?;
 
-        let scaled_y = y * 2 - self.center_2x.y;
+            let scaled_y = y * 2 - self.center_2x.y;
 
-        self.columns
-            .clone()
-            // Find the first pixel that is inside the ellipse.
-            .find(|x| {
-                self.ellipse_contains
-                    .contains(Point::new(*x * 2 - self.center_2x.x, scaled_y))
-            })
-            // Shorten the right side of the scanline by the same amount as the left side.
-            .map(|x| Scanline::new(y, x..self.columns.end - (x - self.columns.start)))
+            // Rows of very thin ellipses can be empty, continue with the next row in this case.
+            if let Some(x) = self
+                .columns
+                .clone()
+                // Find the first pixel that is inside the ellipse.
+                .find(|x| {
+                    self.ellipse_contains
+                        .contains(Point::new(*x * 2 - self.center_2x.x, scaled_y))
+                })
+            {
+                // Shorten the right side of the scanline by the same amount as the left side.
+                return Some(Scanline::new(
+                    y,
+                    x..self.columns.end - (x - self.columns.start),
+                ));
+            }
+        }
     }
 }
 
